@@ -413,3 +413,104 @@ Definition parser_ok_x (hparse : bytes -> list field * option bytes) : Prop :=
   forall fs blank, xwf_block fs = true -> blank_ok blank -> hparse (render fs ++ blank) = (fs, None).
 Definition fold_short_ok (fold_smtp : field -> option bytes) : Prop :=
   forall f, wf_field f = true -> fold_smtp f = Some (fold_raw f).
+
+(* ------------------------------------------------------------------ *)
+(* 7.  Sequences of operations on ONE Envelope object                   *)
+(* ------------------------------------------------------------------ *)
+(* The Envelope object has no other state than its attributes: flatten() and
+   encode_7bit() are functions of the CURRENT headers and message, however many
+   calls, refusals, copies, pickle round trips and in-place header edits came
+   before.  An operation returns the object to go on with and what the caller
+   observes. *)
+Section Ops.
+  Variable hdr : Type.
+  Variable hparse : bytes -> hdr * option bytes.
+  Variable hgen : hdr -> bytes.
+  (* in-place edits of envelope.headers, numbered by the caller: headers[name] = v,
+     del headers[name], headers.replace_header(name, v), envelope.prepend_header(name, v);
+     None = the edit raised (replace_header of a missing name: KeyError), nothing changed *)
+  Variable hedit : N -> hdr -> option hdr.
+
+  Inductive op :=
+  | OFlatten                                          (* envelope.flatten() *)
+  | OEncode (rc : option (bytes -> option bytes))     (* envelope.encode_7bit(encoder); rc d = None: the encoder callback raised *)
+  | OCopy (new_rcpts : list bytes)                    (* go on with envelope.copy(new_rcpts) *)
+  | OPickle                                           (* go on with pickle.loads(pickle.dumps(envelope)) *)
+  | OParse (data : bytes)                             (* envelope.parse(data) *)
+  | OEdit (k : N).                                    (* edit number k of the headers object, in place *)
+
+  Inductive obs :=
+  | ObsFlat (h b : bytes)      (* what flatten() returned *)
+  | ObsDone                    (* returned normally *)
+  | ObsRefused                 (* UnicodeDecodeError: 8-bit body, no encoder *)
+  | ObsEncoderRaised           (* the encoder's own exception came out; envelope untouched *)
+  | ObsEditRaised.
+
+  Definition encode_7bit_f (rc : option (bytes -> option bytes)) (e : envelope hdr) : envelope hdr * obs :=
+    if forallb is_ascii (e_message e) then (e, ObsDone)
+    else match rc with
+         | None => (e, ObsRefused)
+         | Some f =>
+             match f (join (flatten hdr hgen e)) with
+             | None => (e, ObsEncoderRaised)
+             | Some d => (parse hdr hparse (e_sender e) (e_rcpts e) d, ObsDone)
+             end
+         end.
+
+  Definition step (o : op) (e : envelope hdr) : envelope hdr * obs :=
+    match o with
+    | OFlatten => (e, ObsFlat (fst (flatten hdr hgen e)) (snd (flatten hdr hgen e)))
+    | OEncode rc => encode_7bit_f rc e
+    | OCopy nr => (copy hdr e nr, ObsDone)
+    | OPickle => (pickled hdr e, ObsDone)
+    | OParse d => (parse hdr hparse (e_sender e) (e_rcpts e) d, ObsDone)
+    | OEdit k =>
+        match hedit k (e_headers e) with
+        | Some h' => (mkenv (e_sender e) (e_rcpts e) h' (e_message e), ObsDone)
+        | None => (e, ObsEditRaised)
+        end
+    end.
+
+  Definition effect (o : op) (e : envelope hdr) : envelope hdr := fst (step o e).
+  Definition observe (o : op) (e : envelope hdr) : obs := snd (step o e).
+
+  Fixpoint trace (ops : list op) (e : envelope hdr) : list obs :=
+    match ops with
+    | [] => []
+    | o :: r => observe o e :: trace r (effect o e)
+    end.
+
+  (* the envelope after the first k operations *)
+  Definition state_at (k : nat) (ops : list op) (e : envelope hdr) : envelope hdr :=
+    fold_left (fun s o => effect o s) (firstn k ops) e.
+End Ops.
+
+
+(* concrete in-place edits on the class codec's headers *)
+Inductive edit :=
+| EdSet (name value : bytes)        (* headers[name] = value : appended *)
+| EdDel (name : bytes)              (* del headers[name] : every field of that name, case-insensitively *)
+| EdReplace (name value : bytes)    (* replace_header: first field of that name keeps its place and spelling; KeyError if none *)
+| EdPrepend (name value : bytes).   (* prepend_header *)
+
+Definition name_is (n : bytes) (f : field) : bool := beqb (map to_lower (f_name f)) (map to_lower n).
+
+Fixpoint replace_first (n v : bytes) (fs : list field) : option (list field) :=
+  match fs with
+  | [] => None
+  | f :: fs' =>
+      if name_is n f then Some (mkfield (f_name f) v true [] :: fs')
+      else match replace_first n v fs' with Some r => Some (f :: r) | None => None end
+  end.
+
+Definition apply_edit (ed : edit) (h : option (list field)) : option (option (list field)) :=
+  match h with
+  | None => Some None
+  | Some fs =>
+      match ed with
+      | EdSet n v => Some (Some (fs ++ [mkfield n v true []]))
+      | EdDel n => Some (Some (filter (fun f => negb (name_is n f)) fs))
+      | EdReplace n v => match replace_first n v fs with Some r => Some (Some r) | None => None end
+      | EdPrepend n v => Some (Some (mkfield n v true [] :: fs))
+      end
+  end.
